@@ -928,6 +928,16 @@ namespace ip {
 					post(m_io_service, aux::make_malloc(std::bind(std::move(m_connect_handler), p.ec)));
 					m_connect_handler = nullptr;
 					m_channel.reset();
+
+					// operations that were started while the connect was in
+					// progress have been waiting for its outcome. Run them again,
+					// they fail now
+					if (m_send_handler)
+						async_write_some_impl(m_send_buffer, std::move(m_send_handler));
+					if (m_wait_recv_handler)
+						async_wait_read_impl(std::move(m_wait_recv_handler));
+					else if (m_recv_handler)
+						async_read_some_impl(m_recv_buffer, std::move(m_recv_handler));
 					return;
 				}
 
